@@ -26,6 +26,7 @@ import (
 	"time"
 
 	"github.com/rqlite/rqlite/v10/command/proto"
+	csql "github.com/rqlite/rqlite/v10/command/sql"
 	"github.com/rqlite/rqlite/v10/internal/verif/vstat"
 	"pgregory.net/rapid"
 )
@@ -77,7 +78,9 @@ func (g *c15sGen) pragma() (text, name, vector string) {
 	return "\ufeff" + kw + " " + nm + eq + v, name, "leading-bom"
 }
 
-var c15sFiller = []string{"SELECT 1", "SELECT count(*) FROM t", "INSERT INTO t(v) VALUES ('x')", "UPDATE t SET v = 'y' WHERE id = 1", "SELECT 'PRAGMA journal_mode=delete'", "PRAGMA table_info(t)", "PRAGMA synchronous"}
+var c15sFiller = []string{"SELECT 1", "SELECT count(*) FROM t", "INSERT INTO t(v) VALUES ('x')", "UPDATE t SET v = 'y' WHERE id = 1", "SELECT 'PRAGMA journal_mode=delete'", "PRAGMA table_info(t)", "PRAGMA synchronous",
+	// EXPLAIN first statements: command/sql.Process flags the whole text SqlExplain
+	"EXPLAIN SELECT * FROM t", "EXPLAIN QUERY PLAN SELECT 1", "explain INSERT INTO t(v) VALUES ('e')", "EXPLAIN SELECT * FROM t", "explain query plan SELECT count(*) FROM t"}
 
 type c15sState struct {
 	Header, MainHash string
@@ -206,8 +209,27 @@ func TestVerif_C15_Store(t *testing.T) {
 				style := g.of("none", "none", "positional", "named") // placeholder style of the fillers in this text
 				npos, named, bait := 0, false, false
 				thisCritical, thisVector := "", ""
+				// dedicated shape: an EXPLAIN first statement followed by a plainly spelled critical PRAGMA, the
+				// whole text parseable by rqlite/sql so that command/sql.Process flags it SqlExplain
+				explainShape := g.pct(15)
+				if explainShape && n < 2 {
+					n = 2
+				}
 				for j := 0; j < n; j++ {
 					switch {
+					case explainShape && j == 0:
+						parts = append(parts, g.of("EXPLAIN SELECT * FROM t", "EXPLAIN QUERY PLAN SELECT * FROM t", "explain SELECT 1", "EXPLAIN QUERY PLAN SELECT count(*) FROM t WHERE v = 'x'"))
+					case explainShape && j == 1:
+						name := g.of("journal_mode", "wal_autocheckpoint", "synchronous", "query_only", "wal_checkpoint")
+						v := c15sValues[name][g.rng.IntN(len(c15sValues[name]))]
+						txt := "PRAGMA " + name + g.of("=", " = ") + v
+						if name == "wal_checkpoint" && g.pct(50) {
+							txt = "PRAGMA wal_checkpoint(" + v + ")"
+						}
+						parts = append(parts, txt)
+						thisCritical, thisVector = name, "explain-first-statement"
+					case explainShape:
+						parts = append(parts, g.of("SELECT 1", "SELECT count(*) FROM t"))
 					case g.pct(50):
 						txt, name, vec := g.pragma()
 						if j > 0 {
@@ -234,7 +256,11 @@ func TestVerif_C15_Store(t *testing.T) {
 						parts = append(parts, c15sFiller[g.rng.IntN(len(c15sFiller))])
 					}
 				}
-				text := strings.Join(parts, g.of(";", "; ", ";\n")) + g.of("", "", ";", "; -- c", "; --'", "; /* ' */", "; SELECT ''", ";--\"", "; SELECT '")
+				tail := g.of("", "", ";", "; -- c", "; --'", "; /* ' */", "; SELECT ''", ";--\"", "; SELECT '")
+				if explainShape {
+					tail = g.of("", ";")
+				}
+				text := strings.Join(parts, g.of(";", "; ", ";\n")) + tail
 				st := &proto.Statement{Sql: text}
 				// parameters: what the placeholders need, sometimes one surplus value; sometimes a surplus
 				// value on a text without any placeholder (the driver ignores surplus positional values)
@@ -265,6 +291,27 @@ func TestVerif_C15_Store(t *testing.T) {
 			if critical != "" {
 				rec.Label("critical:" + critical)
 				rec.Label("vector:" + vector)
+			}
+
+			// Pre-process as rqlite's HTTP handlers do before they call the Store: command/sql.Process
+			// sets SqlExplain / ForceQuery (and rewrites; /db/query only at level strong).
+			if g.pct(85) {
+				rec.Label("preprocessed:yes")
+				rw := endpoint != "query" || lvl == proto.ConsistencyLevel_STRONG
+				if err := csql.Process(stmts, rw, rw); err != nil {
+					rec.Label("preprocess:rejected")
+					continue
+				}
+				for _, st := range stmts {
+					if st.SqlExplain {
+						rec.Label("flag:SqlExplain")
+						if critical != "" && vector != "with-parameters" {
+							vector = "explain-flagged-text"
+						}
+					}
+				}
+			} else {
+				rec.Label("preprocessed:no")
 			}
 
 			snaps := s.numSnapshots.Load()
